@@ -19,6 +19,7 @@ import KadDHT.Driver.C16
 import KadDHT.Driver.C11
 import KadDHT.Driver.C12
 import KadDHT.Driver.C05
+import KadDHT.Driver.C20
 open KadDHT.Driver
 
 def main (args : List String) : IO UInt32 := do
@@ -26,6 +27,8 @@ def main (args : List String) : IO UInt32 := do
   | ["C18"] => runPure C18.handle; return 0
   | ["C18v"] => runPure C18v.handle; return 0
   | ["C19"] => runLoop C19.step {}; return 0
+  | ["C20"] => runLoop C20.step {}; return 0
+  | ["C20v"] => runLoop C20.verdict {}; return 0
   | ["C05"] => runLoop C05.step {}; return 0
   | ["C05v"] => runLoop C05.verdict {}; return 0
   | ["C12"] => runLoop C12.step { self := 0 }; return 0
